@@ -1,6 +1,7 @@
 package main
 
 import (
+	"context"
 	"fmt"
 	"github.com/fxamacker/cbor/v2"
 	"github.com/mycoria/mycoria/peering"
@@ -179,6 +180,23 @@ func runC10(c *Ctx) error {
 		ids = append(ids, a)
 	}
 
+	// identities from the special ranges (a reserved one, a roaming one, an experiment one): honest
+	// routers of every mesh below, as origins, relays and destinations
+	var specials []*m.Address
+	for _, want := range []m.AddressType{m.TypeReserved, m.TypeRoaming, m.TypeExperiment} {
+		for tries := 0; tries < 4000; tries++ {
+			a, _, err := m.GenerateRoutableAddress(context.Background(), []netip.Prefix{m.SpecialPrefix}, nil, 0)
+			if err != nil || a == nil {
+				break
+			}
+			if m.GetAddressType(a.IP) == want {
+				specials = append(specials, a)
+				c.Count("identity:" + want.String())
+				break
+			}
+		}
+	}
+
 	// ---------- (a) converged meshes ----------
 	type spec struct {
 		kind string
@@ -194,6 +212,13 @@ func runC10(c *Ctx) error {
 		for i := range mids {
 			mids[i] = ids[perm[i]]
 		}
+		var specialPos []int
+		for i, sa := range specials {
+			if pos := (si + 2*i) % sp.n; sp.n > len(specials) {
+				mids[pos] = sa
+				specialPos = append(specialPos, pos)
+			}
+		}
 		labelMode := c.Rng.IntN(3)
 		ms, err := newMesh(c, sp.kind, sp.n, labelMode, nil, mids)
 		if err != nil {
@@ -208,6 +233,11 @@ func runC10(c *Ctx) error {
 		pairs := c.Pick(6, 30)
 		for k := 0; k < pairs; k++ {
 			ai, bi := c.Rng.IntN(sp.n), c.Rng.IntN(sp.n)
+			if k < len(specialPos) {
+				bi = specialPos[k] // a router from a special range as destination ...
+			} else if k < 2*len(specialPos) {
+				ai = specialPos[k-len(specialPos)] // ... and as origin
+			}
 			if ai == bi {
 				continue
 			}
